@@ -11,6 +11,7 @@ use serde_json::json;
 pub const K1: &str = "c04.comment_marker_in_file_name";
 pub const K3: &str = "c04.natural_length_above_limit";
 pub const K10: &str = "c04.sample_point_time_beyond_limit";
+pub const K14: &str = "c04.control_point_times_equal_but_not_identical";
 
 const CANON: [(&str, Section); 8] = [
     ("[General]", Section::General),
@@ -156,6 +157,7 @@ pub fn check_map_k(m1: &Beatmap, open_k1: bool, open_k3: bool, open_k10: bool) -
     let mut counts = std::collections::HashMap::<u8, usize>::new();
     let mut ho_line = 0usize;
     let (mut combo_lines, mut named_lines, mut break_lines, mut timing_lines) = (0, 0, 0, 0);
+    let mut timing_times: Vec<(f64, String)> = vec![];
     for (k, (start, sec)) in headers.iter().enumerate() {
         let end = headers.get(k + 1).map_or(lines.len(), |h| h.0);
         for l in &lines[start + 1..end] {
@@ -241,7 +243,12 @@ pub fn check_map_k(m1: &Beatmap, open_k1: bool, open_k3: bool, open_k10: bool) -
                         return Err(format!("unexpected event line {:?}", line));
                     }
                 }
-                Section::TimingPoints => timing_lines += 1,
+                Section::TimingPoints => {
+                    timing_lines += 1;
+                    if let Some(t) = line.split(',').next().and_then(|f| f.trim().parse::<f64>().ok()) {
+                        timing_times.push((t, line.to_string()));
+                    }
+                }
                 Section::Colors => {
                     if line.starts_with("Combo") {
                         combo_lines += 1;
@@ -254,6 +261,26 @@ pub fn check_map_k(m1: &Beatmap, open_k1: bool, open_k3: bool, open_k10: bool) -
         }
     }
     let m2: Beatmap = st.into();
+    // every timing line the encoder writes leaves a record: the encoder only writes lines that change something,
+    // so after reading back some control point (of any of the four kinds) sits at the line's time
+    for (t, line) in &timing_times {
+        let cp = &m2.control_points;
+        let hit = cp.timing_points.iter().any(|p| p.time == *t) || cp.difficulty_points.iter().any(|p| p.time == *t) || cp.effect_points.iter().any(|p| p.time == *t) || cp.sample_points.iter().any(|p| p.time == *t);
+        if !hit {
+            // K14 (root cause of C02's K11): another written timing line has a time that is "the same" for the
+            // decoder's grouping (closer than f64::EPSILON, or 0 next to -0) without being the identical float
+            // (anywhere among the written lines: a chain 0, 5e-17, 3e-16 regroups the lines after it as well)
+            let near = timing_times.iter().enumerate().any(|(i, (a, _))| timing_times[i + 1..].iter().any(|(b, _)| a.to_bits() != b.to_bits() && (a - b).abs() < f64::EPSILON));
+            static K14_OPEN: std::sync::OnceLock<bool> = std::sync::OnceLock::new();
+            if near && *K14_OPEN.get_or_init(|| crate::engine::KnownFindings::load().is_open("C04", K14)) {
+                if !known.contains(&K14) {
+                    known.push(K14);
+                }
+                continue;
+            }
+            return Err(format!("the encoded timing line {line:?} leaves no control point at its time when the file is read back (dropped entirely)"));
+        }
+    }
     if break_lines != m1.breaks.len() || m2.breaks != m1.breaks {
         return Err(format!("{} break lines for {} breaks (read back {:?})", break_lines, m1.breaks.len(), m2.breaks));
     }
